@@ -106,6 +106,12 @@ def token_mutations(rng, text, n):
 FIXED_DOCUMENTS = [
     ("huge-length", "length a = 99999999999999999999999\nX = a( a* )\n"),
     ("zero-length-only", "length z = 0\n"),
+    # every statement kind that can mention a domain of extreme length, with the optional explicit lengths spelled out
+    ("huge-length-everywhere", "length a = 99999999999999999999999\nlength z = 0\nsequence n = ACGT : 4\n"
+                               "strand s = a z n : 100000000000000000000003\nsup-sequence t = a* : 99999999999999999999999\n"
+                               "strand u = z = 0\nX = s( + ) z\nY = t a\nstructure Z = s + u : ...+.\nW = a( z( n + ) ) @i 1 nM\n"
+                               "state X = [X, Y]\nreaction [bind21 = 1 /M/s] X + Y -> Z\n"),
+    ("huge-length-wrong-strand-length", "length a = 99999999999999999999999\nstrand s = a a* : 5\nX = s\n"),
 ]
 
 
@@ -136,6 +142,9 @@ def run(ctx):
         S = gen_pil.make_system(rng)
         valid = gen_pil.render(S)
         prelude = valid if rng.random() < 0.3 else None
+        # the valid document itself, in a random layout (keyword aliases, optional explicit lengths, comments)
+        kinds["valid-layout"] = kinds.get("valid-layout", 0) + 1
+        cases.append({"kind": "valid-layout", "text": gen_pil.render(S, rng, layout=True)})
         for kind, text in corruptions(rng, S):
             kinds[kind] = kinds.get(kind, 0) + 1
             c = {"kind": kind, "text": text}
